@@ -263,6 +263,8 @@ func runC04(c *core.Ctx) {
 	c.Rule("OPT3", "column pruning cuts parallel slices at corresponding positions")
 	c.Rule("OPT4", "isUsed consults every consumer of a field name")
 	c.Rule("NULLKEY", "stream join never matches NULL keys")
+	c.Rule("CELL", "csv datasource types each pruned column by its own schema slot")
+	checkCSVCells(c, "CELL")
 	const P = "SPLIT(node.Filter.Predicate)[i@L1]"
 	topArgs := "Filter.Predicate.And.Arguments"
 
